@@ -99,8 +99,16 @@ UsesOf(IsUsed(_), IsUsedList(_)) ==
   Strict([j \in 1..Len(Sch.fields) |-> [f |-> Sch.fields[j].name, out |-> "ok", uses |-> IsUsed(Sch.fields[j].name),
                                          list |-> IsUsedList(Sch.fields[j].name)]])
   \o <<[f |-> "nosuch", out |-> "err", uses |-> FALSE, list |-> FALSE], [f |-> "idb", out |-> "err", uses |-> FALSE, list |-> FALSE]>>
+(* the invocation log of the called function is compared when its name does not occur again among its arguments *)
+IdFamily == {"idb", "idi", "fld_only", "bb"}          \* one implementation (identity) in the harness, logged under one name
+NestedSame == \E j \in 1..Len(cas[2]) : (cas[2][j] \in {6, 24} /\ Funcs[cas[1]].name \in IdFamily)
+                                        \/ (cas[2][j] = 7 /\ Funcs[cas[1]].name = "drop_empty")
+                                        \/ (cas[2][j] = 12 /\ Funcs[cas[1]].name = "blen")
+LogOf(r) == IF NestedSame \/ Funcs[cas[1]].name \in {"concat", "ctxfn"} THEN <<>>
+            ELSE Strict([n \in 1..Len(Ctxs) |-> CallLog(r.node.id, Ctxs[n], Sch)])
 ValueVector == LET r == ParseValue(CT, Sch, 128) IN
   IF r.ok THEN [ev |-> "value", sch |-> 1, max |-> 128, ts |-> CT, ok |-> TRUE, ast |-> ValueAstJson(r.node),
+                callfn |-> Funcs[cas[1]].sem, calls |-> LogOf(r),
                 runs |-> Strict([n \in 1..Len(Ctxs) |-> [ctx |-> n, out |-> "ok", res |-> EvalValue(r.node, Ctxs[n], Sch)]]),
                 uses |-> UsesOf(LAMBDA f : UsesIndex(r.node, f), LAMBDA f : UsesListIndex(r.node, f))]
   ELSE [ev |-> "value", sch |-> 1, max |-> 128, ts |-> CT, ok |-> FALSE]
